@@ -69,6 +69,12 @@ def run(ctx):
         if a != b:
             ctx.violation("a reused Searcher reports different coordinates / byte count than a fresh one",
                           dict(kind=203, line=rl[ridx.index(i)], case=sg.describe(cases[i]), fresh=a, reused=b))
+    mlc = [sg.gen_case(rng, multi_line=True) for _ in range(ctx.count(300))]
+    mll = [sg.case_val(c) for c in mlc]
+    for c, l, a, b in zip(mlc, mll, vlib.code(204, mll), vlib.code(205, mll)):
+        if a != b:
+            ctx.violation("a reused Searcher (multi-line, reader input) reports different lines / coordinates than a fresh one",
+                          dict(kind=205, line=l, case=sg.describe(c), fresh=a, reused=b))
     feat = {}
     for case, line, c, m, r in zip(cases, lines, co, mo, ro):
         ev = parse_val(c)[1] if c.startswith("(") else []
